@@ -33,6 +33,7 @@ type Config struct {
 	MapOrderIn   []string // ... for range statements in functions whose name contains one of these
 	Params       map[string]int64 // concrete shape parameters visible to the harness (verifParam)
 	Known        []KnownPred      // open known-finding predicates
+	Witnesses    int              // keep up to this many models of completed paths per cover id (validated natively by the driver)
 	Transcript   string
 	Verbose      bool
 	MaxViolations int
@@ -67,6 +68,17 @@ type Violation struct {
 	Harness string            `json:"harness"`
 }
 
+// Witness is a model of a path that completed without violation, together
+// with the covers it reached: the driver re-runs the harness natively on it
+// and compares (validation of the encoding and of the stubs).
+type Witness struct {
+	Model   map[string]uint64 `json:"model"`
+	Covers  []string          `json:"covers"`
+	Sched   []uint64          `json:"sched,omitempty"`
+	Params  map[string]int64  `json:"params,omitempty"`
+	Harness string            `json:"harness"`
+}
+
 // Results aggregates one job.
 type Results struct {
 	Harness        string           `json:"harness"`
@@ -79,6 +91,7 @@ type Results struct {
 	Decisions      int64            `json:"decisions"`
 	Covers         map[string]int64 `json:"covers"`
 	Violations     []Violation      `json:"violations"`
+	Witnesses      []Witness        `json:"witnesses,omitempty"`
 	ViolationCount map[string]int64 `json:"violation_count"`
 	KnownHits      map[string]int64 `json:"known_hits"`
 	Inconclusive   []string         `json:"inconclusive"`
@@ -120,6 +133,8 @@ type Engine struct {
 	infoMu sync.Mutex
 	globUse map[*ssa.Function]int8
 	infos  map[*ssa.Function]*fnInfo
+
+	witnessCount map[string]int
 
 	mu      sync.Mutex
 	cond    *sync.Cond
@@ -183,6 +198,7 @@ type Path struct {
 	wg        sync.WaitGroup
 	done      chan interface{} // receives the terminating panic value (or nil)
 	covers    []string
+	softCovers []string // covers reached under a satisfiable (not valid) condition
 	clock     *Term
 	clockN    int
 	syncSt    map[*Value]*syncState
@@ -210,6 +226,7 @@ type pendAssert struct {
 func (e *Engine) Run(fn *ssa.Function) *Results {
 	e.cond = sync.NewCond(&e.mu)
 	e.res = newResults()
+	e.witnessCount = map[string]int{}
 	e.res.Harness = fn.Name()
 	e.res.Params = e.Cfg.Params
 	e.started = time.Now()
@@ -389,6 +406,7 @@ func (w *Worker) runPath(fn *ssa.Function, prefix []Decision) {
 			main.callFn(nil, fn, nil, nil)
 			// a harness that returns normally ends the path
 			p.flushAsserts()
+			p.witness()
 			pv = nil
 		}()
 		if pv == nil {
@@ -805,6 +823,58 @@ func (p *Path) lookupName(name string) *Term {
 		}
 	}
 	return nil
+}
+
+// witness keeps a model of this completed path if one of its covers still
+// lacks witnesses.
+func (p *Path) witness() {
+	e := p.eng
+	if e.Cfg.Witnesses <= 0 || len(p.covers) == 0 || (len(p.threads) > 1 && e.Cfg.DelayBound > 0) {
+		return
+	}
+	e.mu.Lock()
+	need := false
+	for _, c := range p.covers {
+		if e.witnessCount[c] < e.Cfg.Witnesses {
+			need = true
+		}
+	}
+	if need {
+		for _, c := range p.covers {
+			e.witnessCount[c]++
+		}
+	}
+	e.mu.Unlock()
+	if !need {
+		return
+	}
+	vars := append([]*Term{}, p.nondet...)
+	m, r := p.w.solver.Model(vars)
+	if r != Sat {
+		return
+	}
+	var sched []uint64
+	for _, d := range p.trace {
+		if d.Kind == 'c' {
+			sched = append(sched, d.Val)
+		}
+	}
+	var hard []string
+	for _, c := range p.covers {
+		soft := false
+		for _, sc := range p.softCovers {
+			if sc == c {
+				soft = true
+			}
+		}
+		if !soft {
+			hard = append(hard, c)
+		}
+	}
+	w := Witness{Model: m, Covers: hard, Sched: sched, Params: e.Cfg.Params, Harness: e.res.Harness}
+	e.mu.Lock()
+	e.res.Witnesses = append(e.res.Witnesses, w)
+	e.mu.Unlock()
 }
 
 // fail records a violation (with a model, outside the open known findings if
